@@ -47,6 +47,8 @@ pub struct GenCfg {
     /// percent chance (per shape draw) of a scan-until shape `(!(n1 | .. | nk) ~ ANY)*` with 3..7 stop strings,
     /// some of which contain, extend or repeat others
     pub skipper_pct: u32,
+    /// percent chance (per shape draw, stack profiles only) of the branch-over-stack-changing-bodies shape
+    pub restorer_pct: u32,
 }
 
 impl GenCfg {
@@ -68,6 +70,7 @@ impl GenCfg {
             negpred_pct: 0,
             long_literals_pct: 0,
             skipper_pct: 0,
+            restorer_pct: 0,
         }
     }
 }
@@ -240,10 +243,34 @@ pub fn gen_grammar(rng: &mut Rng, cfg: &GenCfg) -> Vec<Rule> {
         };
         rules.push(Rule { name: names[i].clone(), ty, expr });
     }
+    if cfg.skipper_pct > 0 {
+        // the skipper rewrites scan-until shapes in atomic rules only: make half of the rules that got one atomic
+        for r in rules.iter_mut().take(n) {
+            if r.ty != RuleType::Atomic && has_scan_shape(&r.expr) && rng.chance(1, 2) {
+                r.ty = RuleType::Atomic;
+            }
+        }
+    }
     if let Some((name, ty, expr)) = stack_rule {
         rules.push(Rule { name, ty, expr });
     }
     rules
+}
+
+/// `(!(..) ~ ANY)*` somewhere in the expression.
+pub fn has_scan_shape(e: &Expr) -> bool {
+    let mut found = false;
+    let _ = e.clone().map_top_down(|x| {
+        if let Expr::Rep(inner) = &x {
+            if let Expr::Seq(a, b) = &**inner {
+                if matches!(&**a, Expr::NegPred(_)) && matches!(&**b, Expr::Ident(n) if n == "ANY") {
+                    found = true;
+                }
+            }
+        }
+        x
+    });
+    found
 }
 
 fn skip_ty(rng: &mut Rng, cfg: &GenCfg) -> RuleType {
@@ -688,7 +715,7 @@ impl<'a> G<'a> {
             }
             return Some(Expr::Rep(Box::new(Expr::Seq(Box::new(Expr::NegPred(Box::new(ch))), Box::new(Expr::Ident("ANY".into()))))));
         }
-        let k = self.rng.below(9);
+        let k = if self.cfg.restorer_pct > 0 && self.stack_ok() && self.rng.chance(self.cfg.restorer_pct, 100) { 5 } else { self.rng.below(9) };
         match k {
             8 => {
                 // the "peek, then scan" idiom: `&first ~ (!stop ~ ANY)+` (progress made by ANY only,
@@ -867,7 +894,7 @@ impl<'a> G<'a> {
                         _ => Expr::Seq(Box::new(Expr::Ident("POP".into())), Box::new(Expr::Ident("POP".into()))),
                     };
                     // then something that may fail afterwards, so the mutation must be undone
-                    if g.rng.chance(1, 4) {
+                    if g.rng.chance(1, 3) {
                         // directly under the branching operator, no sequence in between
                         return m;
                     }
